@@ -37,7 +37,7 @@ ASSUMPTIONS = [
   'inexact arithmetic (Adam square roots, Welford moments, jit-vs-eager fusion) is compared with rtol=1e-5 (Welford 1e-4); everything else bytewise',
   'one fault kind: the wrapped optax transformation raises inside an eager Optimizer.update; read narrowly - a failed update is not an update, so step counter, parameters and optimizer state stay what the hand-written loop (which skipped that step) has, and the exception reaches the caller',
 ]
-PROBES = ['opt_nnx_optimizer', 'opt_nnx_trainstate', 'opt_linen_trainstate', 'step_jit', 'step_eager', 'jit_eager_alternation', 'non_wrt_edit', 'shared_param', 'multisteps', 'schedule', 'metric_average', 'metric_accuracy', 'metric_welford', 'metric_multi', 'metric_reset', 'metric_jit', 'metric_empty_nan', 'metric_repartition', 'metric_big_stream', 'mixed_precision_params']
+PROBES = ['opt_nnx_optimizer', 'opt_nnx_trainstate', 'opt_linen_trainstate', 'step_jit', 'step_eager', 'jit_eager_alternation', 'non_wrt_edit', 'shared_param', 'multisteps', 'schedule', 'metric_average', 'metric_accuracy', 'metric_welford', 'metric_multi', 'metric_reset', 'metric_jit', 'metric_empty_nan', 'metric_repartition', 'metric_big_stream', 'mixed_precision_params', 'param_with_set_hook']
 
 
 def setup_worker(w, tier):
@@ -67,7 +67,7 @@ def generate(rs, tier):
       ops.append(dict(op='edit', target=g.randrange(64), delta=g.randrange(1, 5)))
   return dict(
     engine='nnxworld',
-    knobs=dict(kind='optimizer', build=build, tx=g.choice(['sgd', 'momentum', 'adam', 'adamw', 'clip_sgd', 'schedule', 'multisteps']), wrapper=g.choice(['nnx.Optimizer', 'nnx.Optimizer', 'nnx.TrainState', 'linen.TrainState']), wrt=g.choice(['Param', 'Param', 'SubParam', 'ParamOrCustom']), pdtype=g.choice(['float32', 'float32', 'float32', 'bfloat16'])),
+    knobs=dict(kind='optimizer', hooks=g.random() < 0.25, build=build, tx=g.choice(['sgd', 'momentum', 'adam', 'adamw', 'clip_sgd', 'schedule', 'multisteps']), wrapper=g.choice(['nnx.Optimizer', 'nnx.Optimizer', 'nnx.TrainState', 'linen.TrainState']), wrt=g.choice(['Param', 'Param', 'SubParam', 'ParamOrCustom']), pdtype=g.choice(['float32', 'float32', 'float32', 'bfloat16'])),
     ops=ops,
   )
 
@@ -96,6 +96,17 @@ def signature(plan, v):
 
 class TxFault(Exception):
   pass
+
+
+class _Hook:
+  def __call__(self, var, value):
+    return value + 64.0
+
+  def __repr__(self):
+    return 'HOOK'
+
+
+HOOK = _Hook()
 
 
 def make_tx(name):
@@ -160,6 +171,15 @@ class OptWorld:
         if 'Param' in W.VT_MRO[mv.vtype] or mv.vtype == 'Custom':
           mv.value = mv.value.astype(ml_dtypes.bfloat16)
           self.h.real[i].value = jnp.asarray(mv.value)
+    if k.get('hooks'):
+      # user hooks on the parameters (they act on user assignments `p.value = ...`): an optimizer step is not a user
+      # assignment, and the optimizer's own state is not the user's Variable -- the hand-written loop knows no hooks
+      real_f0, model_f0 = wrt_filters(k['wrt'])
+      for p_, l in W.model_leaves(self.h.model[self.root]):
+        if isinstance(l, W.MVar) and W.filter_model(model_f0, p_, l) and 'on_set_value' not in l.meta:
+          l.meta['on_set_value'] = HOOK
+          setattr(self.h.real[l.id], 'on_set_value', HOOK)
+          res.probe('param_with_set_hook')
     self.tx, self.exact_tx = make_tx(k['tx'])
     inner_tx = self.tx
     self.fail_next = [False]
